@@ -1,7 +1,7 @@
 (* C19 — validating a valid value reaches no allocation site. Partial: what the Go compiler's escape analysis and the
    standard library do is measured (testing.AllocsPerRun), not modelled. *)
 From GV Require Import Base.Bytes GoLite.Syntax GoLite.Sem.
-From GV Require Import Gen.Decl Gen.Rules Gen.Template Gen.Spec Gen.Guard Gen.GenProofs3 Gen.GenExact.
+From GV Require Import Gen.Decl Gen.Rules Gen.Template Gen.Spec Gen.Guard Gen.Typed Gen.GenProofs3 Gen.GenExact.
 
 (* the only allocation sites of the emitted code are `err.Value = t.F` (boxing) and `errs = append(errs, err)`;
    both are inside a check's body, so a run in which no rule fails executes none *)
@@ -16,3 +16,16 @@ Proof.
   right. split; [apply Hn; exact E|]. rewrite Ha, E. reflexivity.
 Qed.
 Print Assumptions C19_valid_path_alloc_free.
+
+(* without the "ill-typed" alternative: for declarations whose marker parameters are in the documented language *)
+Theorem C19_valid_path_alloc_free_typed : forall ipc tab d f root,
+  in_guard tab d = true -> params_ok tab d = true -> gen_file tab d = Some f -> wt_struct d root ->
+  expected ipc tab d root = [] ->
+  let o := exec_file ipc background f (Some root) in
+  o_res o = RNil /\ s_allocs (o_st o) = 0.
+Proof.
+  intros ipc tab d f root G P Hf W E. cbn zeta.
+  destruct (gen_exact_typed ipc tab d f root G P Hf W) as (_ & _ & Hn & _ & Ha).
+  split; [apply Hn; exact E|]. rewrite Ha, E. reflexivity.
+Qed.
+Print Assumptions C19_valid_path_alloc_free_typed.
